@@ -178,6 +178,7 @@ pub fn exec(tok: &[&str]) -> String {
         "first_candidate" => crate::keys::op_first_candidate(tok[1].parse().unwrap(), &unhex(tok[2])),
         // ---- signing (C01, C08, C10) ---------------------------------------------------------------------
         "sign" => crate::sign::op_sign(tok[1].parse().unwrap(), &unhex(tok[2]), &unhex(tok[3]), tok[4].parse().unwrap()),
+        "sign_model" => crate::sign::op_sign_model(tok[1].parse().unwrap(), &unhex(tok[2]), [tok[3], tok[4], tok[5], tok[6]], &unhex(tok[7]), tok[8].parse().unwrap(), tok[9].parse().unwrap(), tok[10]),
         "sign_salt" => crate::sign::op_sign_salt(tok[1].parse().unwrap(), &unhex(tok[2]), &unhex(tok[3]), tok[4].parse().unwrap()),
         "sign_fresh" => crate::sign::op_sign_fresh(tok[1].parse().unwrap(), &unhex(tok[2]), tok[3].parse().unwrap(), tok[4].parse().unwrap()),
         "sign_key_after_key" => crate::sign::op_key_after_key(tok[1].parse().unwrap(), tok[2]),
